@@ -273,6 +273,20 @@ void do_op(string op, string ctx) {
     o = ob_of(f[1]);
     if (o) call_other(o, f[2], f[3], to_int(f[4]));
     break;
+  case "svrt":     // svrt:ID   round trips of generated value number ID (object /c16/vals)
+    o = ob_of("sv");
+    if (o) { r = to_int(f[1]); k = "/c16/vals" + (r / 150); o->rt(r, k->v(r % 150)); o->rto(r, k->v(r % 150), "/sv/r" + f[1]); }
+    break;
+  case "svdmg":    // svdmg:ID:HEX
+    o = ob_of("sv");
+    if (o) o->dmg(to_int(f[1]), f[2]);
+    break;
+  case "svset":    // svset:INT  then svsave:FILE
+    o = ob_of("sv"); if (o) o->set_val(allocate(to_int(f[1])));
+    break;
+  case "svsave":
+    o = ob_of("sv"); if (o) vlog("\"e\":\"Saved\",\"ok\":" + o->plain_save(f[1]));
+    break;
   case "clr":
     map_delete(scripts, f[1]);
     break;
